@@ -370,6 +370,20 @@ def oracle_tract(c):
             t6.parse(**{s: value})
             if (tuple(t6.lots), tuple(t6.qqs)) != (s1["lots"], s1["qqs"]):
                 fails.append(Failure(f"tract_keyword_does_not_win:{s}", f"config {s}.{other} + parse({s}={value}) on {desc!r} gives {t6.qqs}, expected {s1['qqs']}", **ctx))
+            if s in ("qq_depth_min", "qq_depth_max"):
+                # a min / max keyword also overrides an exact depth that came from the config (documented in Tract.parse)
+                t8 = Tract(desc, config="qq_depth.1")
+                t8.parse(**{s: value})
+                if (tuple(t8.lots), tuple(t8.qqs)) != (s1["lots"], s1["qqs"]):
+                    fails.append(Failure(f"tract_keyword_does_not_win_over_qq_depth:{s}", f"config qq_depth.1 + parse({s}={value}) on {desc!r} gives {t8.qqs}, expected {s1['qqs']}", **ctx))
+                d8 = PLSSDesc(f"T154N-R97W Sec 14: {desc}", config="parse_qq,qq_depth.1")
+                d8.parse_tracts(**{s: value})
+                if tuple(d8.tracts[0].qqs) != s1["qqs"]:
+                    fails.append(Failure(f"parse_tracts_keyword_does_not_win_over_qq_depth:{s}", f"config qq_depth.1 + parse_tracts({s}={value}) on {desc!r} gives {d8.tracts[0].qqs}, expected {s1['qqs']}", **ctx))
+                d9 = PLSSDesc(f"T154N-R97W Sec 14: {desc}", config="parse_qq,qq_depth.1", wait_to_parse=True)
+                d9.parse(**{s: value})
+                if tuple(d9.tracts[0].qqs) != s1["qqs"]:
+                    fails.append(Failure(f"plss_keyword_does_not_win_over_qq_depth:{s}", f"config qq_depth.1 + PLSSDesc.parse({s}={value}) on {desc!r} gives {d9.tracts[0].qqs}, expected {s1['qqs']}", **ctx))
     return fails
 
 
